@@ -78,7 +78,7 @@ func (cs *caseJ) key() string {
 }
 
 // The taint tags of Rewrite.tla, each a known (unrepaired) defect of the optimizer.
-var taintTags = []string{"lift-sort-reverse", "lift-sort-nulls", "lift-stateful-expr", "join-dir-nulls", "fork-sortkey", "stale-sortkey", "join-lockstep", "pushdown-error", "merge-filters-error", "pass-placeholder-panic", "sortdir-null-missing", "where-error-sortkey"}
+var taintTags = []string{"lift-stateful-expr", "join-dir-nulls", "fork-sortkey", "stale-sortkey", "join-lockstep", "pushdown-error", "merge-filters-error", "sortdir-null-missing", "where-error-sortkey"}
 
 // The rules of Rewrite.tla (non-vacuity: each must fire in some exported case).
 var ruleNames = []string{"merge-filters", "remove-pass", "lift-summarize", "lift-sort-new-merge", "lift-sort-under-merge",
@@ -281,13 +281,6 @@ func (h *harness) evalCase(r *runner, cs *caseJ, batch int) {
 		}
 		w.O, w.OErr = O.Rows, errStr(O.Err)
 	}
-	if O.Err != nil && hasTaint(cs, "pass-placeholder-panic") && strings.Contains(O.Err.Error(), "Duplicate op value") {
-		h.mu.Lock()
-		h.taintObserved["pass-placeholder-panic"]++
-		h.mu.Unlock()
-		c.Violate("taint:pass-placeholder-panic", fmt.Sprintf("`%s` runs as analyzed but the optimizer panics: %v", prog, O.Err), w)
-		return
-	}
 	if O.Err != nil {
 		c.Violate("optimized-plan-fails:"+kindsOf(cs.Ops), fmt.Sprintf("`%s` runs as analyzed but the optimized plan fails: %v", prog, O.Err), w)
 		return
@@ -355,8 +348,6 @@ func (h *harness) evalCase(r *runner, cs *caseJ, batch int) {
 	for _, t := range cs.Taint {
 		match := false
 		switch t {
-		case "lift-sort-reverse", "lift-sort-nulls":
-			match = sameBag(U.Rows, O.Rows) // only the order is affected
 		case "lift-stateful-expr", "join-dir-nulls", "pushdown-error", "merge-filters-error":
 			// exactly the result the transcribed (wrong) rule predicts -- unless that result
 			// is itself not determined (e.g. a tail behind the per-leg counters)
@@ -466,7 +457,7 @@ func run(c *core.Ctx) error {
 	}
 	// The exhaustive run and the seeded simulation (longer programs over the
 	// extended alphabet) are independent; run the two TLC processes side by side.
-	simCfg, simNum, simDepth := "Rewrite.sim.cfg", 30, 5
+	simCfg, simNum, simDepth := "Rewrite.sim.cfg", 15, 5
 	if !c.Quick() {
 		simCfg, simNum = "Rewrite.simthorough.cfg", 500
 	}
@@ -569,8 +560,8 @@ func run(c *core.Ctx) error {
 	}
 	c.Set("known_hang_instances_skipped", h.lockstepSkips)
 	for _, t := range taintTags {
-		if t == "join-lockstep" || t == "pass-placeholder-panic" {
-			continue // a hang / a crash of the optimizer is not expressible in Sem; witnessed on the real code instead
+		if t == "join-lockstep" {
+			continue // a hang is not expressible in Sem; witnessed on the real code instead
 		}
 		if h.taintPredicted[t] == 0 {
 			c.Inconclusive("vacuous: taint %q is never needed (no exported case where the spec predicts non-equivalence under it)", t)
